@@ -299,7 +299,8 @@ class AstInfo:
         The priority for being covered is:
 
         1. Not in `no_cover_lines`
-        2. In `only_cover_lines`, `only_cover_lines` is empty or a parent is in `only_cover_lines`
+        2. In `only_cover_lines`, `only_cover_lines` is empty, a child is in `only_cover_lines`
+           (the scope has to be entered to reach it) or a parent is in `only_cover_lines`
 
         If a line is in both `no_cover_lines` and `only_cover_lines`, it is not being covered.
 
@@ -321,6 +322,15 @@ class AstInfo:
                     scope_line_range(self.ast)[0], scope_line_range(self.ast)[1] + 1
                 )
                 if child_lineno not in self.module.no_cover_lines
+            )
+            or any(
+                scope_line_range(definition_node)[0] in self.module.only_cover_lines
+                for definition_node in nodes_of_class(
+                    self.module.module_ast, (ast.FunctionDef, ast.AsyncFunctionDef, ast.ClassDef)
+                )
+                if scope_line_range(definition_node)[0]
+                <= lineno
+                <= scope_line_range(definition_node)[1]
             )
         )
 
